@@ -623,6 +623,6 @@ package graphql
 //@   ensures res0 != nil && len(res0.fields) == len(res0.Values) && len(res0.Values) == len(fields) && res0.Invalids == 0
 //@   modifies nothing
 //@ func (*FieldSet).AddField [C01]
-//@   requires m != nil && len(m.fields) == len(m.Values)
-//@   ensures len(m.fields) == len(m.Values) && len(m.Values) == old(len(m.Values)) + 1
+//@   ensures old(len(m.fields)) == old(len(m.Values)) ==> len(m.fields) == len(m.Values)
+//@   ensures len(m.Values) == old(len(m.Values)) + 1
 //@   modifies FieldSet.fields FieldSet.Values elems
